@@ -460,6 +460,37 @@ class SubEval:
                                 raise Unsupported(f"field {n} of {d.obj.name} not given")
                             rec[n] = self.ev(dflt, {"env": {}, "f": f, "yields": []})
                     return Record((n, rec[n]) for n in flds)
+        # map(<repository function / method>, <finite sequence>): the function applied to each element, in order
+        if isinstance(fn, ast.Name) and fn.id == "map" and len(e.args) == 2 and not e.keywords:
+            r0 = e.args[0]
+            h = None
+            if isinstance(r0, ast.Attribute) and isinstance(r0.value, ast.Name) and r0.value.id in ("self", "cls"):
+                h = self.cls.find_method(r0.attr)
+            elif isinstance(r0, ast.Name):
+                d = self.ctx.prog.resolve_name(f.module, r0.id)
+                h = d.obj if d is not None and d.kind == "func" else None
+            seq_ = self.seq(self.ev(e.args[1], fr))
+            if h is None or seq_ is None or h.is_async:
+                raise Unsupported(f"map over `{norm(e)[:50]}`")
+            params = list(h.positional_params)
+            env0: dict = {}
+            if h.cls is not None and not h.is_staticmethod() and params:
+                env0[params[0]] = "SELF"
+                params = params[1:]
+            if len(params) < 1:
+                raise Unsupported(f"map of {h.qualname}")
+            out_ = []
+            for x_ in seq_:
+                env2 = dict(env0)
+                env2[params[0]] = x_
+                for p in h.params:
+                    if p not in env2:
+                        d_ = h.param_default(p)
+                        if d_ is None:
+                            raise Unsupported(f"missing argument {p} of {h.qualname}")
+                        env2[p] = self.ev(d_, {"env": {}, "f": h, "yields": []})
+                out_.append(self.call(h, env2))
+            return out_
         # builtins
         if isinstance(fn, ast.Name):
             pos, kw = self.args_of(e, fr)
